@@ -145,9 +145,11 @@ impl ZerokitMerkleTree for PmTree {
             Err(_) => pmtree::MerkleTree::new(depth, config.0)?,
         };
 
+        // a loaded tree keeps the depth it was created with, whatever `depth` says
+        let capacity = tree.capacity();
         Ok(PmTree {
             tree,
-            cached_leaves_indices: vec![0; 1 << depth],
+            cached_leaves_indices: vec![0; capacity],
             metadata: Vec::new(),
         })
     }
